@@ -851,6 +851,312 @@ def run_ragged(agg, rows):
         return False, f"{type(ex).__name__}: {ex}"
 
 
+# ------------------------------------------------------------------ wave 3: re-shape histories on ONE model
+# ops (JSON-able):  ["S", name, value]  scalar converter     ["V", name, n, [values]]      setup_vector
+#   ["M", name, m, n, [[values]]]  setup_matrix     ["NV", name, [[key, value], …]]  setup_named_vector
+#   ["E", name, [key path], value]  re-assign one entry (A[i][j] = value / v[i] = value)
+#   ["U", tree]  use in a fresh converter; leaves ["ref", name] | ["num", literal]; ["A", agg, name]
+class Shape:
+    """independent book-keeping of what the set-up methods leave behind: member keys are only ever added"""
+    def __init__(self):
+        self.keys, self.rows, self.named, self.vals = [], {}, False, {}
+
+    def add_row(self, k):
+        if k not in self.keys:
+            self.keys.append(k)
+            self.rows[k] = None
+
+    def setup_vector(self, n, values):
+        for i in range(n):
+            self.add_row(str(i))
+            if self.rows[str(i)] is None:
+                self.vals[(str(i),)] = values[i]
+
+    def setup_matrix(self, m, n, values):
+        for i in range(m):
+            self.add_row(str(i))
+            if self.rows[str(i)] is None:
+                self.rows[str(i)] = []
+                self.vals.pop((str(i),), None)
+            for j in range(n):
+                if str(j) not in self.rows[str(i)]:
+                    self.rows[str(i)].append(str(j))
+                self.vals[(str(i), str(j))] = values[i][j]
+
+    def setup_named(self, pairs):
+        self.named = True
+        for k, v in pairs:
+            self.add_row(k)
+            if self.rows[k] is None:
+                self.vals[(k,)] = v
+
+    def uniform(self):
+        rs = [self.rows[k] for k in self.keys]
+        return all(r is None for r in rs) or (all(r is not None for r in rs) and all(r == rs[0] for r in rs))
+
+    def descriptor(self):
+        def key(k):
+            return ("i", int(k)) if k.isdigit() else ("s", k)
+        if not self.keys:
+            return d_scalar()
+        inner = self.rows[self.keys[0]] or []
+        return ("el", tuple(key(k) for k in self.keys), tuple(key(l) for l in inner), self.named)
+
+    def copy(self):
+        c = Shape()
+        c.keys, c.rows, c.named, c.vals = list(self.keys), {k: (None if r is None else list(r)) for k, r in self.rows.items()}, self.named, dict(self.vals)
+        return c
+
+
+def hist_apply(shapes, op):
+    """book-keeping for one set-up op (returns False when the result has rows of different kinds — not generated)"""
+    sh = shapes.setdefault(op[1], Shape())
+    if op[0] == "S":
+        sh.vals[()] = op[2]
+    elif op[0] == "V":
+        sh.setup_vector(op[2], op[3])
+    elif op[0] == "M":
+        sh.setup_matrix(op[2], op[3], op[4])
+    elif op[0] == "NV":
+        sh.setup_named(op[2])
+    elif op[0] == "E":
+        sh.vals[tuple(op[2])] = op[3]
+    return sh.uniform()
+
+
+def rtree_wire(t):
+    if t[0] == "num":
+        return "N:" + t[1]
+    if t[0] == "ref":
+        return "@" + t[1]
+    if t[0] == "neg":
+        return "O nmul " + rtree_wire(t[1]) + (" N:-1" if t[1][0] == "ref" else " N:-1.0")
+    _, form, a, b = t
+    f = "nmul" if (form == "mul" and a[0] == "num" and b[0] == "ref") else form
+    return f"O {f} {rtree_wire(a)} {rtree_wire(b)}"
+
+
+def rtree_resolve(t, shapes):
+    """the tree with the CURRENT descriptors at its leaves (for the numpy oracle)"""
+    if t[0] == "num":
+        return ("num", t[1])
+    if t[0] == "ref":
+        return ("el", t[1], shapes[t[1]].descriptor())
+    if t[0] == "neg":
+        return ("neg", rtree_resolve(t[1], shapes))
+    return ("op", t[1], rtree_resolve(t[2], shapes), rtree_resolve(t[3], shapes))
+
+
+def hist_wire(ops):
+    out = []
+    for op in ops:
+        if op[0] == "V":
+            out.append(f"V {op[1]} {op[2]}")
+        elif op[0] == "M":
+            out.append(f"M {op[1]} {op[2]} {op[3]}")
+        elif op[0] == "NV":
+            out.append(f"NV {op[1]} {','.join(k for k, _ in op[2])}")
+        elif op[0] == "U":
+            out.append("U " + rtree_wire(_tup(op[1])))
+        elif op[0] == "A":
+            out.append(f"A {op[1]} {op[2]}")
+    return "hist " + " ; ".join(out)
+
+
+def run_history(ops):
+    """run the history on ONE real model; per use: (line, values, exception text, oracle verdict)
+    verdict: None (agrees / nothing to say) | (key, text, detail)"""
+    import numpy as np
+    m = new_model()
+    els, shapes, out, n = {}, {}, [], 0
+    for op in ops:
+        if op[0] in ("S", "V", "M", "NV", "E"):
+            e = els.setdefault(op[1], m.converter(op[1]))
+            if op[0] == "S":
+                e.equation = op[2]
+            elif op[0] == "V":
+                e.setup_vector(op[2], list(op[3]))
+            elif op[0] == "M":
+                e.setup_matrix([op[2], op[3]], [list(r) for r in op[4]])
+            elif op[0] == "NV":
+                e.setup_named_vector({k: v for k, v in op[2]})
+            else:
+                cur = e
+                for k in op[2][:-1]:
+                    cur = cur[k]
+                cur[op[2][-1]] = op[3]
+            hist_apply(shapes, op)
+            continue
+        n += 1
+        verdict = None
+        try:
+            R = m.converter(f"R{n}")
+            if op[0] == "U":
+                t = _tup(op[1])
+                R.equation = tree_build(("el", t[1], None) if t[0] == "ref" else _rt_real(t), els)
+            else:
+                a = els[op[2]]
+                k = op[1].split(":")
+                f = {"sum": a.arr_sum, "prod": a.arr_prod, "mean": a.arr_mean, "median": a.arr_median,
+                     "std": a.arr_stddev, "size": a.arr_size}.get(k[0])
+                R.equation = f() if f else a.arr_rank(int(k[1]))
+            line, got = observe(R)
+            exc = None
+        except pyfrag.Unsupported:
+            raise
+        except Exception as ex:
+            line, got, exc = "none", None, f"{type(ex).__name__}: {ex}"
+        # oracle for the CURRENT shapes
+        if op[0] == "U":
+            rt = rtree_resolve(_tup(op[1]), shapes)
+            vals = {nm: {k: v for k, v in sh.vals.items()} for nm, sh in shapes.items()}
+            try:
+                _, _, exp = spec_tree(rt, vals)
+            except Mismatch as mm:
+                exp = None
+                if line != "none":
+                    verdict = ("mismatch-accepted:reshape", f"{tree_show(rt)} with the current shapes "
+                               f"{ {nm: describe(d) for nm, d in tree_leaves(rt, {}).items()} }: operands do not match ({mm}) but the equation is accepted and yields {got}", None)
+            if exp is not None and line != "none":
+                dd = compare_values(got, {k: float(v) for k, v in exp.items()}, exact=False)
+                if dd is not None:
+                    what = (f"the result has the entries {dd[1]}, numpy's result has {dd[2]}" if dd[0] == "keys"
+                            else f"element {dd[0]} evaluates to {dd[1]!r}, numpy gives {dd[2]}")
+                    verdict = ("wrong-value:reshape", f"{tree_show(rt)} with the current shapes "
+                               f"{ {nm: describe(d) for nm, d in tree_leaves(rt, {}).items()} }: {what}", dd)
+        else:
+            d = shapes[op[2]].descriptor()
+            if is_arr(d) and line != "none":
+                with np.errstate(all="ignore"):
+                    exp = spec_agg(op[1], d, shapes[op[2]].vals)
+                if not close(got[()], exp, exact=op[1].split(":")[0] in ("sum", "prod", "size", "rank")):
+                    verdict = ("wrong-value:reshape", f"{op[1]}({op[2]}: {describe(d)}) evaluates to {got[()]!r}, numpy gives {exp}", (op[1], got[()], exp))
+        out.append((line, got, exc, verdict))
+    return out
+
+
+def _rt_real(t):
+    """tree in the form tree_build expects (leaves looked up by name)"""
+    if t[0] == "ref":
+        return ("el", t[1], None)
+    if t[0] == "num":
+        return t
+    if t[0] == "neg":
+        return ("neg", _rt_real(t[1]))
+    return ("op", t[1], _rt_real(t[2]), _rt_real(t[3]))
+
+
+def hist_fails(ops):
+    """index (among the uses) and verdict of the first use the oracle objects to, or None"""
+    try:
+        res = run_history(ops)
+    except pyfrag.Unsupported:
+        return None
+    for i, (_, _, _, v) in enumerate(res):
+        if v is not None:
+            return i, v
+    return None
+
+
+def hist_shrink(ops):
+    """cut after the first failing use, then keep the set-ups and as few earlier uses as still fail"""
+    f = hist_fails(ops)
+    if f is None:
+        return ops, None
+    uses = [i for i, o in enumerate(ops) if o[0] in ("U", "A")]
+    ops = ops[:uses[f[0]] + 1]
+    last, setups = ops[-1], [o for o in ops[:-1] if o[0] not in ("U", "A")]
+    best = ops
+    if hist_fails(setups + [last]) is not None:
+        best = setups + [last]
+    else:
+        for i, o in enumerate(ops[:-1]):
+            if o[0] in ("U", "A"):
+                cand = [x for j, x in enumerate(ops[:-1]) if x[0] not in ("U", "A") or j == i] + [last]
+                if hist_fails(cand) is not None:
+                    best = cand
+                    break
+    changed = True
+    while changed:                      # drop set-ups that are not needed
+        changed = False
+        for i in range(len(best) - 1):
+            if best[i][0] in ("U", "A"):
+                continue
+            cand = best[:i] + best[i + 1:]
+            try:
+                if hist_fails(cand) is not None:
+                    best, changed = cand, True
+                    break
+            except Exception:
+                pass
+    return best, hist_fails(best)
+
+
+HIST_PARTNERS = [["S", "s", 1.5], ["V", "v2", 2, [5.0, 6.0]], ["V", "v3", 3, [7.0, 8.0, 9.0]],
+                 ["M", "B22", 2, 2, [[1.0, 2.0], [3.0, 4.0]]], ["M", "B23", 2, 3, [[0.5, 1.5, 2.5], [3.5, 4.5, 5.5]]],
+                 ["M", "B32", 3, 2, [[1.0, -1.0], [2.0, -2.0], [0.5, 4.0]]]]
+HIST_FAMILIES = [            # successive shapes of the re-shaped element H
+    [("M", 2, 2), ("M", 2, 3), ("M", 3, 3)],                   # same row count / more columns, then more rows
+    [("V", 2), ("M", 2, 2), ("M", 2, 3)],                      # vector -> matrix -> wider
+    [("M", 2, 2), ("V", 2), ("M", 2, 3)],                      # matrix -> setup_vector (stays a matrix) -> wider
+    [("V", 2), ("V", 3), ("V", 3)],                            # other row count, then only new values
+    [("NV", "ab"), ("V", 2)],                                  # named -> also indexed keys
+    [("V", 2), ("NV", "ab")],                                  # indexed -> named
+    [("M", 1, 2), ("M", 2, 2), ("M", 2, 3), ("M", 3, 3)],
+    [("M", 2, 3), ("M", 2, 2), ("M", 3, 3)],                   # a smaller request keeps the columns
+    [("M", 3, 2), ("M", 3, 3), ("V", 3)],
+]
+
+
+def hist_setup_op(name, spec_, salt):
+    pv = lambda i: POOL[(i + salt) % len(POOL)]
+    if spec_[0] == "V":
+        return ["V", name, spec_[1], [pv(i) for i in range(spec_[1])]]
+    if spec_[0] == "M":
+        return ["M", name, spec_[1], spec_[2], [[pv(3 * i + j) for j in range(spec_[2])] for i in range(spec_[1])]]
+    return ["NV", name, [[k, pv(i)] for i, k in enumerate(spec_[1])]]
+
+
+def hist_uses(name, shape, full=True):
+    """the uses after a set-up: every form with every partner in both orders, unary minus, itself, the aggregates"""
+    H = ["ref", name]
+    out = []
+    partners = [["num", "2.0"], ["ref", "s"], ["ref", "v2"], ["ref", "v3"], ["ref", "B22"], ["ref", "B23"], ["ref", "B32"], H]
+    for P in (partners if full else [["ref", "v2"], ["ref", "v3"], ["ref", "B22"], ["ref", "B23"]]):
+        for f in (("add", "sub", "mul", "div", "dot") if full else ("add", "dot")):
+            out.append(["U", ["op", f, H, P]])
+            if P is not H and not (P[0] == "num" and f == "dot"):
+                out.append(["U", ["op", f, P, H]])
+    out.append(["U", ["neg", H]])
+    cnt = max(1, len(shape.keys)) * max(1, len(shape.rows[shape.keys[0]] or [1])) if shape.keys else 1
+    for g in (["sum", "prod", "mean", "median", "std", "size", "rank:1", f"rank:{cnt}", f"rank:{cnt + 1}", "rank:4", "rank:6"] if full else ["sum", "size", f"rank:{cnt}", "rank:4"]):
+        out.append(["A", g, name])
+    return out
+
+
+def make_history(seq, salt=0):
+    ops = [list(o) for o in HIST_PARTNERS]
+    shapes = {}
+    for o in ops:
+        hist_apply(shapes, o)
+    for pi, sp in enumerate(seq):
+        op = hist_setup_op("H", sp, salt + 5 * pi)
+        trial = {k: v.copy() for k, v in shapes.items()}
+        if not hist_apply(trial, op):
+            continue                               # would leave rows of different kinds: matrix_size refuses those
+        shapes = trial
+        ops.append(op)
+        ops += hist_uses("H", shapes["H"])
+        sh = shapes["H"]                           # re-assign one existing entry, use again
+        k = sh.keys[-1]
+        path = [k] if sh.rows[k] is None else [k, sh.rows[k][-1]]
+        e = ["E", "H", path, -3.0 + pi]
+        hist_apply(shapes, e)
+        ops.append(e)
+        ops += hist_uses("H", shapes["H"], full=False)
+    return ops
+
+
 # ------------------------------------------------------------------ probes and Gen file
 def probe():
     facts = {}
@@ -1139,7 +1445,7 @@ def run(chk):
                         note_violation("wrong-value:nested-dot-operand" if "dot" in txt else "wrong-value:nested", 100 + len(txt),
                                        f"{txt} with value table {zs} held by {zkind}s: element {dd[0]} evaluates to {dd[1]!r}, numpy gives {dd[2]}",
                                        dict(rep, salt=zs, elem_kind=zkind, index=dd[0], observed=repr(dd[1]), expected=dd[2]))
-        if ti % (3 if chk.quick else 2) == 0 or (acc and dep >= 2 and ti % 2 == 0):
+        if ti % (6 if chk.quick else 2) == 0 or (acc and dep >= 2 and ti % (5 if chk.quick else 2) == 0):
             stock_pool.append((t, shape, named, exp))
     chk.cov["nested_trees_in_model"] = ndist
     # ---- Stock targets (item 3): flat pairs, nested trees and arrayed-element equations on fresh / arrayed stocks
@@ -1238,6 +1544,39 @@ def run(chk):
                            f"{tree_text(t)}: element {d[0]} evaluates to {d[1]}, numpy gives {d[2]}",
                            {"kind": "nested", "tree": t, "leaves": g.leaves, "index": d[0], "observed": d[1], "expected": d[2]})
     chk.cov["nested_expressions"] = {"run": n_nested, "accepted": n_nested_acc}
+    # ---- re-shape histories on ONE model (wave 3): set up, use, set up again with another shape, use again
+    hists = [make_history(seq, 3 * i) for i, seq in enumerate(HIST_FAMILIES)]
+    rngh = chk.rng.fork("c10-hist")
+    for i in range(12 if chk.quick else 120):
+        seq = []
+        for _ in range(rngh.range(2, 4)):
+            c = rngh.below(6)
+            seq.append(("V", rngh.range(1, 3)) if c == 0 else ("NV", rngh.choice(["ab", "abc", "ba"])) if c == 1 and not seq
+                       else ("M", rngh.range(1, 3), rngh.range(1, 3)))
+        hists.append(make_history(seq, 7 * i + 1))
+    hdist = {"histories": 0, "uses": 0, "accepted": 0, "setups": 0}
+    for ops in hists:
+        try:
+            res = run_history(ops)
+        except pyfrag.Unsupported:
+            unsupported += 1
+            continue
+        req.append(hist_wire(ops)); real.append(" || ".join(r[0] for r in res)); meta.append(("history", None, None))
+        hdist["histories"] += 1
+        hdist["uses"] += len(res)
+        hdist["accepted"] += sum(r[0] != "none" for r in res)
+        hdist["setups"] += sum(o[0] in ("V", "M", "NV", "E") for o in ops) - len(HIST_PARTNERS) + 1
+        shown = " -> ".join(f"{o[0]}{o[2:4] if o[0] == 'M' else o[2] if o[0] == 'V' else ''}" for o in ops if o[0] in ("V", "M", "NV") and o[1] == "H")
+        chk.case(("history", hist_wire(ops)), nontrivial=True, sample=("history H: " + shown) if hdist["histories"] <= 3 else None)
+        bad = next((r[3] for r in res if r[3] is not None), None)
+        if bad is not None:
+            small, f = hist_shrink(ops)
+            key, text = (f[1][0], f[1][1]) if f else (bad[0], bad[1])
+            steps = "; ".join((f"{o[1]}.setup_{'vector' if o[0] == 'V' else 'matrix' if o[0] == 'M' else 'named_vector'}({o[2:4] if o[0] == 'M' else o[2] if o[0] == 'V' else [k for k, _ in o[2]]})"
+                               if o[0] in ("V", "M", "NV") else f"{o[1]}{o[2]} = {o[3]}" if o[0] == "E" else f"{o[1]} = {o[2]}" if o[0] == "S"
+                               else "use " + (tree_show(_show_rt(_tup(o[1]))) if o[0] == "U" else f"{o[2]}.arr_{o[1]}")) for o in small)
+            note_violation(key, len(small), f"after the history [{steps}]: {text}", {"kind": "history", "ops": small})
+    chk.cov["reshape_histories"] = hdist
     # ---- model side
     model = [canon_assign(x) for x in drive("C10", req)]
     chk.cov["traces_validated_against_impl"] = len(req)
@@ -1274,6 +1613,16 @@ def run(chk):
 
 def _tup(x):
     return tuple(_tup(y) for y in x) if isinstance(x, list) else x
+
+
+def _show_rt(t):
+    if t[0] == "ref":
+        return ("el", t[1], None)
+    if t[0] == "num":
+        return t
+    if t[0] == "neg":
+        return ("neg", _show_rt(t[1]))
+    return ("op", t[1], _show_rt(t[2]), _show_rt(t[3]))
 
 
 def replay(path):
@@ -1347,6 +1696,19 @@ def replay(path):
             return 1
         print("expected at t=2 (initial value + 2·entry):", {k: inits[k] + 2.0 * exp[k] for k in got if k in exp})
         return 1 if any(k in exp and not close(got[k], inits[k] + 2.0 * exp[k], exact=False) for k in got) else 0
+    if kind == "history":
+        ops = r["ops"]
+        res = run_history(ops)
+        ui = 0
+        for o in ops:
+            if o[0] in ("U", "A"):
+                line, got, exc, v = res[ui]; ui += 1
+                print("use", tree_show(_show_rt(_tup(o[1]))) if o[0] == "U" else f"{o[2]}.arr_{o[1]}", "->", line[:120], got, exc)
+                if v is not None:
+                    print("VIOLATED:", v[1])
+            else:
+                print("set-up", o)
+        return 1 if any(x[3] is not None for x in res) else 0
     if kind == "ragged":
         acc, val = run_ragged(r["agg"], r["rows"])
         print("case:", r["agg"], r["rows"], "->", acc, val, "expected", r.get("expected"))
